@@ -140,8 +140,49 @@ class Ctx:
                 "wall": time.time() - self.t0}
 
 
+def ddmin(ctx, v, fn, keys, budget=60.0):
+    """Bounded greedy delta debugging on the list-valued entries `keys` of a dict case: drop
+    elements as long as the violation keeps its signature.  Used where cases cost ~1 s and
+    Hypothesis' own shrinker cannot be bounded."""
+    case = v.case
+    if not isinstance(case, dict):
+        return v
+    t_end = time.time() + budget
+    best = v
+    def still_fails(c):
+        try:
+            fn(c)
+        except Violation as w:
+            if w.signature == v.signature:
+                return w
+        except Exception:
+            return None
+        return None
+    for key in keys:
+        lst = list(best.case.get(key) or [])
+        chunk = max(1, len(lst) // 2)
+        while chunk >= 1 and time.time() < t_end:
+            i = 0
+            progressed = False
+            while i < len(lst) and time.time() < t_end:
+                cand = lst[:i] + lst[i + chunk:]
+                if key == "artifacts":        # elements refer to each other by index: only drop a tail
+                    cand = lst[:len(lst) - chunk] if i == 0 else None
+                if cand is None or len(cand) == len(lst):
+                    break
+                c2 = dict(best.case); c2[key] = cand
+                w = still_fails(c2)
+                if w is not None:
+                    best = w; lst = cand; progressed = True
+                else:
+                    i += chunk
+            if not progressed:
+                chunk //= 2
+    return best
+
+
 def run_hypothesis(ctx, strategy, fn, max_examples, shrink=True, salt="", max_rootcauses=3,
-                   stateful=None, step_count=30):
+                   stateful=None, step_count=30, minimize=None):
     """Run fn(case) over strategy with the project's settings; collect up to
     max_rootcauses violations with different signatures (each is then suppressed so
     that the search continues behind it)."""
@@ -176,6 +217,13 @@ def run_hypothesis(ctx, strategy, fn, max_examples, shrink=True, salt="", max_ro
                 t()
             remaining -= n
         except Violation as v:
+            if minimize:
+                saved = (ctx.evaluations, set(ctx.nontrivial), ctx.labels.copy(), list(ctx.samples))
+                try:
+                    v = ddmin(ctx, v, fn, minimize)
+                except Violation as w:
+                    v = w
+                ctx.evaluations, ctx.nontrivial, ctx.labels, ctx.samples = saved
             ctx.add_violation(v)
             found += 1
             remaining -= n
@@ -265,6 +313,7 @@ def main(modname, tier, seed, nshards=None, time_budget=None):
     os.makedirs(base)
     evpath = os.path.join(VERIF_DIR, "evidence", mod.PROP + ".json")
     os.makedirs(os.path.dirname(evpath), exist_ok=True)
+    shutil.rmtree(os.path.join(VERIF_DIR, "replay", mod.PROP), ignore_errors=True)
     try:
         lines, viols, ncorpus = run_corpus(mod, tier, seed, base)
         for l in lines:
